@@ -1443,7 +1443,9 @@ class AsType(Elemwise):
             dtypes = self.operand("dtypes")
             columns = determine_column_projection(self, parent, dependents)
             if isinstance(dtypes, dict):
-                dtypes = {key: val for key, val in dtypes.items() if key in columns}
+                # columns is a scalar for a Series projection, don't substring-match
+                keep = _convert_to_list(columns)
+                dtypes = {key: val for key, val in dtypes.items() if key in keep}
                 if not dtypes:
                     return type(parent)(self.frame, *parent.operands[1:])
             if isinstance(columns, list):
